@@ -40,7 +40,8 @@ type Mail struct{ Addr string } // <a@b.c>
 type Raw struct{ S string }     // inline raw html
 type Soft struct{}
 type Hard struct{}
-type BS struct{} // a literal backslash right before a hard break written with spaces
+type NearMiss struct{ S string } // block-start look-alike at the start of a paragraph continuation line indented >= 5 columns: plain text
+type BS struct{}                 // a literal backslash right before a hard break written with spaces
 
 // URL: pieces with source spelling and resolved value
 type URL struct{ P []Piece }
@@ -154,6 +155,8 @@ func plain(in []Inline) string {
 			sb.WriteString("\n")
 		case BS:
 			sb.WriteString("\\")
+		case NearMiss:
+			sb.WriteString(v.S)
 		}
 	}
 	return sb.String()
@@ -207,6 +210,8 @@ func renderInl(in []Inline) string {
 			sb.WriteString("<br>\n")
 		case BS:
 			sb.WriteString("\\")
+		case NearMiss:
+			sb.WriteString(esc(v.S))
 		}
 	}
 	return sb.String()
